@@ -1,4 +1,5 @@
 F = "crates/astria-sequencer-relayer/src/relayer/write/conversion.rs"
+W = "crates/astria-sequencer-relayer/src/relayer/write/mod.rs"
 
 PRELUDE = r'''
 use std::pin::Pin;
@@ -38,6 +39,11 @@ pub struct Submission { pub input: Input, pub payload: Payload }
 pub struct TakeSubmission<'a> { pub inner: Option<&'a mut NextSubmission> }
 impl<'a> TakeSubmission<'a> { pub fn project(self: Pin<&mut Self>) -> &mut Self { self.get_mut() } }
 impl From<TryIntoPayloadError> for TryAddError { fn from(e: TryIntoPayloadError) -> Self { TryAddError::IntoPayload(e) } }
+pub mod conversion { pub use crate::TryAddError; }
+impl From<TryAddError> for eyre::Report { fn from(e: TryAddError) -> Self { std::mem::forget(e); eyre::Report::new() } }   // thiserror's Error impl
+pub struct CelestiaClientBuilder; pub struct CancellationToken; pub struct SubmissionStateAtStartup; pub struct RelayerState;
+pub mod mpsc { pub struct Receiver<T>(pub std::marker::PhantomData<T>); }
+pub use std::sync::Arc;
 pub const MAX_PAYLOAD_SIZE_BYTES: usize = 0x1F_FFFF;   // the real constant is compared only
 '''
 
@@ -93,6 +99,30 @@ HARNESS = r'''
         }
         assert!(ns.input == Input::new() && ns.payload == Payload::new());                          // and nothing of the batch stays behind
     }
+    // ---- BlobSubmitter::add_sequencer_block_to_next_submission: a block that does not fit is parked, never dropped ----
+    #[kani::proof]
+    #[kani::unwind(5)]
+    #[kani::stub(alloc::fmt::format, crate::vx_stub_format)]
+    fn add_block_parks_what_does_not_fit() {
+        let ns = any_next();
+        let (input0, payload0) = (ns.input, ns.payload);
+        let mut sub = BlobSubmitter { client_builder: CelestiaClientBuilder, blocks: mpsc::Receiver(std::marker::PhantomData), next_submission: ns, state: Arc::new(RelayerState),
+                                      submission_state_at_startup: None, submitter_shutdown_token: CancellationToken, pending_block: None, metrics: &METRICS };
+        assert!(sub.has_capacity());                                   // the run loop reads the channel only in this state
+        let b = SequencerBlock { height: kani::any(), id: kani::any() };
+        let r = sub.add_sequencer_block_to_next_submission(b);
+        let appended = sub.next_submission.input.n == input0.n + 1 && sub.next_submission.input.blocks[input0.n] == Some((b.height, b.id));
+        let parked = sub.pending_block == Some(b);
+        match r {
+            // accepted: the block is in exactly one of the batch and the pending slot, and the channel is not read again while it is pending
+            Ok(()) => { assert!(appended != parked);
+                        if parked { assert!(sub.next_submission.input == input0 && sub.next_submission.payload == payload0 && !sub.has_capacity()); }
+                        else { assert!(sub.pending_block.is_none() && sub.has_capacity()); } }
+            // an error is fatal for the task (the caller breaks out of its loop); nothing was changed
+            Err(_) => { assert!(sub.next_submission.input == input0 && sub.pending_block.is_none()); }
+        }
+        std::mem::forget(sub);
+    }
     #[kani::proof]
     #[kani::unwind(5)]
     fn canary_try_add_ok_reachable() {
@@ -114,15 +144,19 @@ UNIT = dict(
              rewrites=[dict(rule="subst", id="R8.hoist_instant_now", old="std::time::Instant::now()", new="vx_instant_now()")]),
         dict(file=F, path="impl NextSubmission/fn take"),
         dict(file=F, path="impl Future for TakeSubmission<'_>"),
+        dict(file=W, path="struct BlobSubmitter", rewrites=[dict(rule="subst", id="relayer-state-type", old="Arc<super::State>", new="Arc<RelayerState>", count=1)]),
+        dict(file=W, path="impl BlobSubmitter/fn add_sequencer_block_to_next_submission"),
+        dict(file=W, path="impl BlobSubmitter/fn has_capacity"),
     ],
     harness=HARNESS,
     harnesses=[
         dict(name="try_add_contract", obligation="NextSubmission::try_add::ensures#Ok=>appended-once+payload-of-that-input-within-bound;Err=>unchanged+block-handed-back",
              bounded="batches of at most 3 blocks (inputs are fixed-capacity lists; the function itself is loop-free)"),
         dict(name="take_moves_batch_out_atomically", obligation="TakeSubmission::poll::ensures#input-and-payload-leave-together+nothing-left", bounded="batches of at most 3 blocks"),
+        dict(name="add_block_parks_what_does_not_fit", obligation="BlobSubmitter::add_sequencer_block_to_next_submission::ensures#block-in-exactly-one-of-batch/pending+no-capacity-while-pending", bounded="batches of at most 3 blocks"),
         dict(name="canary_try_add_ok_reachable", expect="fail"),
     ],
     assumptions=["Input::extend_from_sequencer_block and Input::try_into_payload (rollup filter, split_for_celestia, protobuf, brotli, Blob::new) are stand-ins: the input is the ordered list of blocks, the payload has arbitrary sizes and remembers the input it was built from",
                  "pin_project's TakeSubmission struct is hand-written in the prelude (same field); impl From<TryIntoPayloadError> for TryAddError (thiserror #[from]) provided by the shim",
-                 "NOT under contract: BlobSubmitter::add_sequencer_block_to_next_submission / pending_block handling, height ordering of the channel, relayer-encode vs conductor-decode agreement"],
+                 "NOT under contract: the select loop of BlobSubmitter::run (re-adding the pending block after a take, skip of already submitted heights), height ordering of the channel, relayer-encode vs conductor-decode agreement"],
 )
